@@ -39,6 +39,7 @@ structure Obj where
   c : Nat
   s : Nat
   d : Nat
+  l : Nat                  -- drop count after the follow-up simulations
 
 def modIdx (ms : List ModDecl) (n : String) : Option Nat := ms.findIdx? (·.name == n)
 
@@ -99,7 +100,8 @@ def endEmits (ms : List ModDecl) (body : List String) : Nat :=
 def parseObjs (body : List String) : List Obj :=
   body.filterMap fun line =>
     match words line with
-    | "obj" :: k :: t :: rest => some ⟨k, t, (kvNat rest "c").getD 0, (kvNat rest "s").getD 0, (kvNat rest "d").getD 0⟩
+    | "obj" :: k :: t :: rest => some ⟨k, t, (kvNat rest "c").getD 0, (kvNat rest "s").getD 0, (kvNat rest "d").getD 0,
+        (kvNat rest "l").getD ((kvNat rest "d").getD 0)⟩
     | _ => none
 
 def natList (s : String) : List Nat := (s.splitOn ",").filterMap String.toNat?
@@ -149,6 +151,7 @@ def processCase (c : Case) : String := Id.run do
   let hdr := words c.header
   let id := hdr[1]?.getD "?"
   let stop := (kv hdr "stop").getD "full"
+  let endMode := (kv hdr "end").getD "finish"
   let ms := parseMods c.body
   let cs := parseChains ms c.body
   let ts := parseTasks ms cs c.body
@@ -195,15 +198,21 @@ def processCase (c : Case) : String := Id.run do
         ((kvNat finL "rs").getD 0) ((kvNat finL "aw").getD 0)
     else []
   let fesEvs := if res == "ok" then [] else mkEvs fes 0 0 0 0
-  let bufN := if started && res != "panic" then endEmits ms c.body else 0
+  -- `at_sim_end` of the modules runs only inside a `finish()` that gets past the inner application
+  let bufN := if started && (res == "ok" || (res == "err" && endMode != "apperr")) then endEmits ms c.body else 0
+  let stopKind : Stop :=
+    if stop == "never0" then .neverBuilt else if stop == "never" then .unstarted
+    else if res == "nofinish" then .stepped else if res == "unwound" || res == "panic" then .unwound
+    else if res == "err" then .finishedErr else .finishedOk
   let d : Desc := { mods := mods, gates := gates, links := links, fes := fesEvs, rem := remEvs,
-                    buf := mkEvs bufN 0 0 0 0 }
+                    buf := mkEvs bufN 0 0 0 0, stop := stopKind }
   -- ---------------------------------------------------------------- model verdict
   let st := dropSim d
   let mleak := (leaked d).map kindOfNode
   let isWired := wired d
   -- ---------------------------------------------------------------- acceptance rule on the counters
-  let bad := objs.filter fun o => o.d != o.c || o.c != 1
+  let bad := objs.filter fun o => o.d != o.c || o.c != 1 || o.l != o.d
+  let olate := (objs.filter fun o => o.l != o.d).map (·.kind)
   let oleak := (objs.filter fun o => o.d < o.c).map (·.kind)
   let odouble := (objs.filter fun o => o.d > o.c).map (·.kind)
   let kinds := ["mod", "pe", "task", "body", "probe"]
@@ -217,8 +226,15 @@ def processCase (c : Case) : String := Id.run do
     let oldLeak := (leaked { d with keepChan := true }).map kindOfNode
     let explained := odouble.isEmpty && queued > 0 && kinds.all fun k => countKind oldLeak k == countKind oleak k
     let mper := mper ++ (if explained then "] tag=backlog-cycle old-code-model=[body=" ++ toString (countKind oldLeak "body") else "")
-    return s!"fail {id} op={idx} kind=reject clause=dropped-exactly-once first={o.kind}:{o.tag} c={o.c} d={o.d} {per} stop={stop} res={res} queued={queued} fes={fes} model-leaks=[{mper}] second-sim={if sim2 == sim2Expected && sim3 == sim2Expected then "same" else "differs:" ++ sim2}"
+    -- does a panic hook that holds the globals (model variant `hookGlobals`) explain it?
+    let hookLeak := (leaked { d with hookGlobals := true }).map kindOfNode
+    let hookExplained := odouble.isEmpty && !hookLeak.isEmpty && kinds.all fun k => countKind hookLeak k == countKind oleak k
+    let mper := mper ++ (if hookExplained then "] tag=hook-holds-globals hook-model=[mod=" ++ toString (countKind hookLeak "mod") else "")
+    let clause := if o.d == o.c && o.c == 1 then "released-late" else "dropped-exactly-once"
+    return s!"fail {id} op={idx} kind=reject clause={clause} first={o.kind}:{o.tag} c={o.c} d={o.d} l={o.l} late={olate.length} {per} stop={stop} end={endMode} res={res} queued={queued} fes={fes} model-leaks=[{mper}] second-sim={if sim2 == sim2Expected && sim3 == sim2Expected then "same" else "differs:" ++ sim2}"
   | none => pure ()
+  if sim2 == "hung" || sim3 == "hung" then
+    return s!"fail {id} op={nobjs} kind=reject clause=second-simulation what=hung which={if sim2 == "hung" then "second" else "third"} stop={stop} end={endMode} res={res} detail=the-follow-up-simulation-did-not-return-within-10s"
   if sim2 != sim2Expected then
     return s!"fail {id} op={nobjs} kind=reject clause=second-simulation spec={sim2Expected} impl={sim2}"
   if sim3 != sim2Expected then
@@ -262,8 +278,8 @@ def processCase (c : Case) : String := Id.run do
   let rem := (kvNat finL "rem").getD 0
   if res == "ok" && (rem < fes || rem > fes + ms.length) then
     return s!"fail {id} op=0 kind=diverge what=remaining-vs-fes rem={rem} fes={fes}"
-  let nt := started && res != "panic" && (fes > 0 || queued > 0 || aliveTasks.length > 0)
-  return s!"ok {id} nt={if nt then 1 else 0} objs={nobjs} mods={ms.length} alivetasks={aliveTasks.length} queued={queued} pending={fes} alivebodies={aliveBodies} nodes={(nodesOf d).eraseDups.length} errend={if res == "err" then 1 else 0} rings={(cs.filter (·.ring)).length}"
+  let nt := started && res != "panic" && (fes > 0 || queued > 0 || aliveTasks.length > 0 || res == "unwound")
+  return s!"ok {id} nt={if nt then 1 else 0} objs={nobjs} mods={ms.length} alivetasks={aliveTasks.length} queued={queued} pending={fes} alivebodies={aliveBodies} nodes={(nodesOf d).eraseDups.length} errend={if res == "err" then 1 else 0} nofinish={if res == "nofinish" then 1 else 0} unwound={if res == "unwound" then 1 else 0} rings={(cs.filter (·.ring)).length}"
 
 def main (stdin : IO.FS.Stream) : IO Unit := do
   let cases ← readCases stdin
